@@ -22,12 +22,13 @@ git diff > /tmp/sv/$NAME.patch
 # target dir for the demo
 TGT=$(grep -oE '(pkg|plugins)/[A-Za-z0-9_/-]+' "$SRC/demo/README.txt" | sed 's#/$##' | while read d; do [ -d "$WT/$d" ] && echo $d && break; done | head -1)
 [ -z "$TGT" ] && TGT=$(dirname $(git diff --name-only | head -1))
+[ -n "$SEED_TGT" ] && TGT=$SEED_TGT   # explicit demo directory (README names several)
 MOD=.
 case $TGT in plugins/*) MOD=$(echo $TGT | cut -d/ -f1-2); esac
 rel=${TGT#$MOD/}; [ "$rel" = "$TGT" ] && [ "$MOD" != "." ] && rel=.
 [ "$MOD" = "." ] && rel=$TGT
 B1=$(/verif/tools/baseline.sh "$WT" 2>&1 | tail -1)
-cp "$SRC"/demo/*.go "$TGT"/ 2>/dev/null
+if [ -n "$SEED_DEMO" ]; then cp "$SRC/demo/$SEED_DEMO" "$TGT/zz_seed_demo_test.go"; else cp "$SRC"/demo/*.go "$TGT"/ 2>/dev/null; fi
 (cd $MOD && go test -vet=off -count=1 ./$rel/ >/tmp/sv/$NAME.with.log 2>&1); WITH=$?
 git apply -R /tmp/sv/$NAME.patch
 (cd $MOD && go test -vet=off -count=1 ./$rel/ >/tmp/sv/$NAME.without.log 2>&1); WITHOUT=$?
